@@ -365,9 +365,11 @@ def patLostHandshakeAck (h : Spec.History) : Bool :=
     | .drop id =>
       match em.lookup id with
       | some p =>
+        let sameFlow := fun (q : Nat × Packet) => q.1 < id && q.2.src == p.src && q.2.seg.srcPort == p.seg.srcPort &&
+              q.2.dst == p.dst && q.2.seg.dstPort == p.seg.dstPort
         isPureAck p &&
-          !(em.any fun q => q.1 < id && q.2.src == p.src && q.2.seg.srcPort == p.seg.srcPort &&
-              q.2.dst == p.dst && q.2.seg.dstPort == p.seg.dstPort && !q.2.seg.flags.syn)
+          (em.any fun q => sameFlow q && q.2.seg.flags.syn && !q.2.seg.flags.ack) &&
+          !(em.any fun q => sameFlow q && !q.2.seg.flags.syn)
       | none => false
     | _ => false)
 
